@@ -22,8 +22,8 @@ enum { M_REG = 1, M_SET, M_RESTRICT, M_REFRESH, M_DUP, M_XML };
 struct mop { int kind, a, b, c, d; unsigned long flags; };
 struct mhist { int root; int n; struct mop ops[5]; };
 
-static const char *ROOTS[] = { "node:2 pu:2", "node:4 pu:1", "@cpuless.xml", "@nested.xml", "node:1 pu:2" };
-#define NROOTS 5
+static const char *ROOTS[] = { "node:2 pu:2", "node:4 pu:1", "@cpuless.xml", "@nested.xml", "node:1 pu:2", "@hetero.xml" };
+#define NROOTS 6
 static const char *RNAMES[] = { "VerifA", "VerifB", "Capacity", NULL };
 
 static void mop_print(struct sb *b, const struct mop *o)
